@@ -245,7 +245,12 @@ impl Prop for C03 {
                 delay: None,
             },
             history: vec![QOp::SweepItems, QOp::SweepItems, QOp::Reopen, QOp::SweepItems],
-        }]
+        },
+        // hundreds of chromosomes under one non-leaf index entry, every chromosome queried
+        Case { file: c01::big_case(300, 1024, 300), history: vec![QOp::SweepItems, QOp::Reopen, QOp::SweepItems] },
+        Case { file: c01::big_case(2000, 1, 1000), history: vec![QOp::SweepItems] },
+        // one index leaf with thousands of entries
+        Case { file: c01::with_block_size(c01::big_case(3000, 1, 1), 4096), history: vec![QOp::SweepItems] }]
     }
     fn check(case: &Case, obs: &mut Obs) -> Result<(), String> {
         let input = &case.file.input;
